@@ -580,3 +580,102 @@ func fewerParens(n *ref.Node) *ref.Node {
 	}
 	return &c
 }
+
+// calleeCase: one parsed formula that calls through a local, evaluated after the
+// local was bound to F1 and again after it was re-bound to F2.
+type calleeCase struct {
+	Use string `json:"use"` // formula calling $pick
+	F1  string `json:"f1"`
+	F2  string `json:"f2"`
+}
+
+func checkCallee(c calleeCase) string {
+	data := func() map[string]interface{} {
+		return map[string]interface{}{"lo": 3, "hi": 7, "neg": -2.5,
+			"twice": func(a, b float64) (float64, error) { return 2 * (a + b), nil },
+			"first": func(a, b interface{}) (interface{}, error) { return a, nil }}
+	}
+	use := obs.Parse([]byte(c.Use))
+	if !use.OK() {
+		return "HARNESS: " + c.Use
+	}
+	fresh := func(fn string) string {
+		p := obs.Parse([]byte(strings.ReplaceAll(c.Use, "$pick", fn)))
+		if !p.OK() {
+			return "HARNESS"
+		}
+		r := formula.NewRunner()
+		r.SetThis(data())
+		return obs.Eval(r, context.Background(), p.Src.Expression).String()
+	}
+	bind := func(r *formula.Runner, fn string) string {
+		p := obs.Parse([]byte("$pick = " + fn))
+		if !p.OK() {
+			return "HARNESS: bind " + fn
+		}
+		if o := obs.Eval(r, context.Background(), p.Src.Expression); o.Panic != nil || o.Err != nil {
+			return fmt.Sprintf("$pick = %s -> %s", fn, o)
+		}
+		return ""
+	}
+	r := formula.NewRunner()
+	r.SetThis(data())
+	for step, fn := range []string{c.F1, c.F2, c.F1} {
+		if m := bind(r, fn); m != "" {
+			return m
+		}
+		got, want := obs.Eval(r, context.Background(), use.Src.Expression).String(), fresh(fn)
+		if got != want && !(strings.HasPrefix(got, "ERR(") && strings.HasPrefix(want, "ERR(")) { // errors name the callee as written
+			return fmt.Sprintf("step %d: after '$pick = %s' (earlier bindings on the same runner: %v) the parsed formula %q gives %s, want what %q gives: %s", step+1, fn, []string{c.F1, c.F2, c.F1}[:step], c.Use, got, strings.ReplaceAll(c.Use, "$pick", fn), want)
+		}
+	}
+	// the same tree on another runner whose local holds F2 from the start
+	r2 := formula.NewRunner()
+	r2.SetThis(data())
+	if m := bind(r2, c.F2); m != "" {
+		return m
+	}
+	if got, want := obs.Eval(r2, context.Background(), use.Src.Expression).String(), fresh(c.F2); got != want && !(strings.HasPrefix(got, "ERR(") && strings.HasPrefix(want, "ERR(")) {
+		return fmt.Sprintf("the parsed formula %q, evaluated before with $pick = %s, gives %s on a new runner with '$pick = %s', want %s", c.Use, c.F1, got, c.F2, want)
+	}
+	return ""
+}
+
+func init() {
+	h.RegisterReplay("c07-callee", func(raw json.RawMessage) string {
+		c, err := h.Decode[calleeCase](raw)
+		if err != nil {
+			return "bad replay: " + err.Error()
+		}
+		return checkCallee(c)
+	})
+}
+
+// TestC07CalleeLocals: a local is read where it is used - also when it holds a
+// function and is used as the callee.
+func TestC07CalleeLocals(t *testing.T) {
+	fns := []string{"max", "min", "twice", "first", "abs", "lo", "null"}
+	uses := []string{"$pick(lo, hi)", "[$pick(hi, lo), $pick(neg, neg)]", "$pick(lo, hi) + 1", "$g = $pick, $g(lo, hi)", "[1, $pick(lo, $pick(hi, neg))]"}
+	run := h.Begin("C07", "callee-locals", fmt.Sprintf("bounded-exhaustive: %d formulas that call through the local $pick x every ordered pair of the %d bindings {max, min, two host functions, a one-argument builtin, a number, null}: one parsed tree evaluated after '$pick = F1', after '$pick = F2', after '$pick = F1' again on one runner, and on a second runner bound to F2; oracle: the outcome (value or error) of the formula with the bound function written in place of $pick, freshly parsed; every case non-trivial", len(uses), len(fns)))
+	defer run.End(t)
+	var idx int64
+	for _, u := range uses {
+		for _, f1 := range fns {
+			for _, f2 := range fns {
+				idx++
+				if !h.Mine(idx) || run.NViolations() >= 3 {
+					continue
+				}
+				c := calleeCase{Use: u, F1: f1, F2: f2}
+				run.Count(true, "")
+				if idx%37 == 0 {
+					run.Sample("callee", fmt.Sprintf("%s with $pick = %s, then %s", u, f1, f2))
+				}
+				if msg := checkCallee(c); msg != "" {
+					run.Fail("c07-callee", c, msg)
+				}
+			}
+		}
+	}
+	run.Exhaustive()
+}
